@@ -4,6 +4,7 @@ import (
 	"bufio"
 	"fmt"
 	"io"
+	"os"
 	"os/exec"
 	"strconv"
 	"strings"
@@ -28,6 +29,7 @@ type solverSpec struct {
 	pre  []string // commands sent at start
 	// per-query timeout command (ms -> command), "" if set on argv
 	timeoutCmd func(ms int) string
+	intMode    bool // LIA encoding (intenc.go)
 }
 
 func solverSpecs(perQueryMs int) map[string]solverSpec {
@@ -41,6 +43,12 @@ func solverSpecs(perQueryMs int) map[string]solverSpec {
 		"cvc5": {name: "cvc5", argv: []string{"cvc5", "--incremental", "--produce-models",
 			fmt.Sprintf("--tlimit-per=%d", perQueryMs)},
 			pre: []string{"(set-option :global-declarations true)", "(set-logic QF_BV)"}},
+		"z3lia": {name: "z3lia", intMode: true, argv: []string{"z3-new", "-in"},
+			pre: []string{"(set-option :global-declarations true)", "(set-option :produce-models true)",
+				fmt.Sprintf("(set-option :timeout %d)", perQueryMs)}},
+		"cvc5lia": {name: "cvc5lia", intMode: true, argv: []string{"cvc5", "--incremental", "--produce-models",
+			fmt.Sprintf("--tlimit-per=%d", perQueryMs)},
+			pre: []string{"(set-option :global-declarations true)", "(set-logic QF_NIA)"}},
 		"cvc5int": {name: "cvc5int", argv: []string{"cvc5", "--incremental", "--produce-models", "--solve-bv-as-int=sum",
 			fmt.Sprintf("--tlimit-per=%d", perQueryMs)},
 			pre: []string{"(set-option :global-declarations true)", "(set-logic QF_BV)"}},
@@ -56,6 +64,7 @@ type SolverProc struct {
 	inRaw   io.WriteCloser
 	out     *bufio.Reader
 	defined map[int32]bool
+	nonlin  map[int32]bool // intMode: term (transitively) has no arithmetic reading
 	stack   []*Term
 	hardMs  int
 	dead    bool
@@ -72,6 +81,10 @@ type SolverProc struct {
 
 func StartSolver(spec solverSpec, hardMs int) (*SolverProc, error) {
 	s := &SolverProc{spec: spec, hardMs: hardMs}
+	if d := os.Getenv("VSYM_SMTLOG"); d != "" {
+		f, _ := os.Create(fmt.Sprintf("%s/%s-%d.smt2", d, spec.name, time.Now().UnixNano()))
+		s.logW = f
+	}
 	if err := s.start(); err != nil {
 		return nil, err
 	}
@@ -97,6 +110,7 @@ func (s *SolverProc) start() error {
 	s.in = bufio.NewWriterSize(in, 1<<16)
 	s.out = bufio.NewReaderSize(out, 1<<16)
 	s.defined = make(map[int32]bool)
+	s.nonlin = make(map[int32]bool)
 	s.stack = nil
 	s.dead = false
 	for _, c := range s.spec.pre {
@@ -147,11 +161,32 @@ func (s *SolverProc) define(t *Term) {
 			continue
 		}
 		if it.t.Op == OpVar {
+			if s.spec.intMode {
+				s.declareIntVar(it.t)
+				continue
+			}
 			s.send(fmt.Sprintf("(declare-const |%s| %s)", it.t.Name, sortOf(it.t)))
 			s.defined[it.t.ID] = true
 			continue
 		}
 		if it.done {
+			if s.spec.intMode {
+				body, ok := intBody(it.t)
+				for _, a := range it.t.A {
+					if a != nil && s.nonlin[a.ID] {
+						ok = false
+					}
+				}
+				if !ok {
+					s.nonlin[it.t.ID] = true
+					// keep the solver's view well-formed: an unconstrained stand-in (never asserted: queries touching it are refused)
+					s.send(fmt.Sprintf("(declare-const i%d %s)", it.t.ID, intSort(it.t)))
+				} else {
+					s.send(fmt.Sprintf("(define-fun i%d () %s %s)", it.t.ID, intSort(it.t), body))
+				}
+				s.defined[it.t.ID] = true
+				continue
+			}
 			s.send(fmt.Sprintf("(define-fun t%d () %s %s)", it.t.ID, sortOf(it.t), termBody(it.t)))
 			s.defined[it.t.ID] = true
 			continue
@@ -163,6 +198,34 @@ func (s *SolverProc) define(t *Term) {
 			}
 		}
 	}
+}
+
+// declareIntVar declares an Int variable with its range at the base level of the assertion stack.
+func (s *SolverProc) declareIntVar(t *Term) {
+	saved := s.stack
+	if n := len(s.stack); n > 0 {
+		s.send(fmt.Sprintf("(pop %d)", n))
+		s.stack = nil
+	}
+	if t.W == 0 {
+		s.send(fmt.Sprintf("(declare-const |%s| Bool)", t.Name))
+	} else {
+		s.send(fmt.Sprintf("(declare-const |%s| Int)", t.Name))
+		s.send(fmt.Sprintf("(assert (and (<= 0 |%s|) (< |%s| %s)))", t.Name, t.Name, pow2(t.W)))
+	}
+	s.defined[t.ID] = true
+	for _, a := range saved {
+		s.send("(push 1)")
+		s.send("(assert " + s.ref(a) + ")")
+		s.stack = append(s.stack, a)
+	}
+}
+
+func (s *SolverProc) ref(t *Term) string {
+	if s.spec.intMode {
+		return intRef(t)
+	}
+	return termRef(t)
 }
 
 // sync makes the solver's assertion stack equal to pc.
@@ -178,7 +241,7 @@ func (s *SolverProc) sync(pc []*Term) {
 	for _, t := range pc[common:] {
 		s.define(t)
 		s.send("(push 1)")
-		s.send("(assert " + termRef(t) + ")")
+		s.send("(assert " + s.ref(t) + ")")
 		s.stack = append(s.stack, t)
 	}
 }
@@ -251,11 +314,30 @@ func (s *SolverProc) Check(pc []*Term, extra *Term, vars []*Term, wantModel bool
 	t0 := time.Now()
 	defer func() { s.Time += time.Since(t0) }()
 	s.Queries++
+	if s.spec.intMode {
+		// define first: variable declarations re-base the stack
+		for _, t := range pc {
+			s.define(t)
+		}
+		if extra != nil {
+			s.define(extra)
+		}
+		bad := extra != nil && s.nonlin[extra.ID]
+		for _, t := range pc {
+			if s.nonlin[t.ID] {
+				bad = true
+			}
+		}
+		if bad {
+			s.Queries--
+			return Unknown, nil
+		}
+	}
 	s.sync(pc)
 	if extra != nil {
 		s.define(extra)
 		s.send("(push 1)")
-		s.send("(assert " + termRef(extra) + ")")
+		s.send("(assert " + s.ref(extra) + ")")
 	}
 	s.send("(check-sat)")
 	if err := s.in.Flush(); err != nil {
@@ -310,7 +392,7 @@ func (s *SolverProc) Check(pc []*Term, extra *Term, vars []*Term, wantModel bool
 			var sb strings.Builder
 			sb.WriteString("(get-value (")
 			for _, v := range live[i:j] {
-				sb.WriteString(termRef(v))
+				sb.WriteString(s.ref(v))
 				sb.WriteByte(' ')
 			}
 			sb.WriteString("))")
@@ -408,6 +490,19 @@ func parseValues(resp string, vars []*Term, m *Model) bool {
 				return false
 			}
 			val = u
+		case tok == "(" && p+1 < len(toks) && toks[p+1] == "-":
+			u, np, ok := parseIntValue(toks, p)
+			if !ok {
+				return false
+			}
+			val = u
+			p = np - 1
+		case tok[0] >= '0' && tok[0] <= '9':
+			u, _, ok := parseIntValue(toks, p)
+			if !ok {
+				return false
+			}
+			val = u
 		case tok == "(":
 			// (_ bvN W)
 			if p+3 >= len(toks) || toks[p+1] != "_" || !strings.HasPrefix(toks[p+2], "bv") {
@@ -469,7 +564,15 @@ func (ss *SolverSet) Check(pc []*Term, extra *Term, vars []*Term, wantModel bool
 		if p == nil {
 			continue
 		}
+		t0 := time.Now()
 		r, m := p.Check(pc, extra, vars, wantModel)
+		if d := time.Since(t0); d > 2*time.Second && os.Getenv("VSYM_SLOW") != "" {
+			ex := ""
+			if extra != nil {
+				ex = extra.String()
+			}
+			fmt.Fprintf(os.Stderr, "SLOW %s %.1fs %s pc=%d extra=%s\n", ss.names[i], d.Seconds(), r, len(pc), ex)
+		}
 		if r != Unknown {
 			return r, m, ss.names[i]
 		}
